@@ -47,6 +47,10 @@ pub struct Scenario {
     /// deterministic, the interleaving is whatever the machine does
     #[serde(default)]
     pub tracker_stress: Option<(usize, usize, usize, u64)>,
+    /// `image`-crate adapter: a history of `set_limits` / `read_rect` calls; it must behave like the
+    /// same history without the rejected `set_limits` calls
+    #[serde(default)]
+    pub adapter_history: Option<Vec<crate::checks::adapter::LimitOp>>,
 }
 
 const AMPLE: usize = 1 << 31;
@@ -117,7 +121,32 @@ pub fn generate(seed: u64, tier: Tier) -> Scenario {
         passes.push(Pass { budget, ops: ops_for(&mut rng, &sched, with_budget_ops, allow_region) });
     }
     let tracker_stress = rng.chance(1, 8).then(|| (rng.usize_in(2, 6), 4000, *rng.pick(&[1000usize, 4096, 100_000]), rng.next_u64()));
-    Scenario { case, hostile, passes, tracker_stress }
+    let rect_ok = case.shape.starts_with("f1-") && !case.shape.contains("crop") && !case.shape.contains("up");
+    let adapter_history = (!hostile && rng.chance(1, 5)).then(|| {
+        use crate::checks::adapter::LimitOp;
+        let px = 1u64 << rng.range(8, 22);
+        (0..rng.usize_in(3, 9))
+            .map(|_| {
+                if rng.chance(3, 5) {
+                    LimitOp::SetLimits(match rng.below(8) {
+                        0 => None,
+                        1 => Some(0),
+                        2 => Some(rng.below(4096)),
+                        3 | 4 => Some(px * rng.range(1, 16) as u64),
+                        5 => Some(1 << 20),
+                        6 => Some(2 << 20),
+                        _ => Some(1 << 28),
+                    })
+                } else if rect_ok {
+                    LimitOp::ReadRect(rng.below(16) as u32, rng.below(16) as u32, 1 + rng.below(16) as u32, 1 + rng.below(16) as u32)
+                } else {
+                    // partial rectangles on multi-frame / cropped / patched images hit F15 / F24 (C06's findings)
+                    LimitOp::ReadRect(0, 0, 16, 16)
+                }
+            })
+            .collect()
+    });
+    Scenario { case, hostile, passes, tracker_stress, adapter_history }
 }
 
 pub fn digest(sc: &Scenario) -> u64 {
@@ -365,6 +394,29 @@ pub fn execute(seed: u64, sc: &Scenario, stats: &mut Stats) -> Result<(), Violat
             }
             Err((c, d)) => {
                 return Err(viol(seed, sc, c, format!("pass {pi} ({:?}, limit {limit}, fail_from {fail_from}, fault-free N={} peak={}): {d}", pass.budget, reference.allocs, reference.peak)));
+            }
+        }
+    }
+    if let Some(ops) = &sc.adapter_history {
+        use crate::checks::adapter::{LimitOp, run_limit_history};
+        crate::harness::heartbeat("c13-adapter");
+        if let Ok(a) = run_limit_history(bytes, ops) {
+            let rejected: Vec<bool> = ops.iter().zip(&a).map(|(op, r)| matches!(op, LimitOp::SetLimits(_)) && r.is_err()).collect();
+            if rejected.iter().any(|&r| r) {
+                let kept: Vec<LimitOp> = ops.iter().zip(&rejected).filter(|(_, r)| !**r).map(|(o, _)| o.clone()).collect();
+                let want: Vec<_> = a.iter().zip(&rejected).filter(|(_, r)| !**r).map(|(o, _)| o.clone()).collect();
+                match run_limit_history(bytes, &kept) {
+                    Ok(b) if b == want => stats.probe("adapter_rejected_limit_had_no_effect"),
+                    Ok(b) => {
+                        let i = b.iter().zip(&want).position(|(x, y)| x != y).unwrap_or(0);
+                        return Err(viol(seed, sc, "adapter:rejected_set_limits_had_an_effect".into(), format!(
+                            "JxlDecoder history {ops:?}: outcomes {a:?}; without the rejected set_limits calls op #{i} ({:?}) gives {:?} instead of {:?}", kept[i], b[i], want[i])));
+                    }
+                    Err(e) => return Err(viol(seed, sc, "adapter:construction_differs".into(), format!("second construction failed: {e}"))),
+                }
+                stats.fault("adapter_set_limits_rejected");
+            } else {
+                stats.probe("adapter_history_without_rejection");
             }
         }
     }
